@@ -66,9 +66,10 @@ type topoState struct {
 	// unreach: addresses that currently refuse connections
 	unreach map[string]bool
 	// invalid / duplicate row injection for the next refreshes
-	invalidFor string
-	dupFor     string
-	compares   int
+	invalidFor  string
+	invalidKind int
+	dupFor      string
+	compares    int
 	// splitAddrs: nodes have distinct rpc and node-to-node addresses
 	splitAddrs bool
 }
@@ -160,7 +161,16 @@ func runTopo(e *Env) {
 		rows := cl.PeersOf(h)
 		for i := range rows {
 			if rows[i].RPC == st.invalidFor {
-				rows[i].NullRack = true
+				switch st.invalidKind {
+				case 1: // no usable address at all: rpc_address 0.0.0.0 and no peer address
+					rows[i].RPC, rows[i].NullPeer = "0.0.0.0", true
+				case 2:
+					rows[i].NullTokens = true
+				case 3:
+					rows[i].NullHostID = true
+				default:
+					rows[i].NullRack = true
+				}
 			}
 		}
 		if st.dupFor != "" {
@@ -341,7 +351,8 @@ func runTopo(e *Env) {
 				delete(st.down, prev)
 			}
 			st.invalidFor = h.Addr
-			k.Rec("step invalid-row %s", h.Addr)
+			st.invalidKind = tp.Next(4)
+			k.Rec("step invalid-row %s kind %d", h.Addr, st.invalidKind)
 			k.Fault("topo.invalid-peer-row")
 			st.event("TOPOLOGY_CHANGE", "NEW_NODE", h.Addr)
 		case 7: // a duplicated peer row
